@@ -246,6 +246,29 @@ func init() {
 		p.crashPoint("os.Create:" + path)
 		return Tuple{osFile(p, fn, path), Iface{}}
 	})
+	reg("os.WriteFile", func(p *Path, fn *ssa.Function, a []Value) Value {
+		path := strArg(p, a[0])
+		f := p.fileAt(path)
+		if !f.exists {
+			f.mode = uint64(p.concInt(a[2].(*Term))) &^ 0o022
+		}
+		f.exists = true
+		f.writes, f.stale, f.overwriting = nil, false, false
+		p.fileWrite(f, a[1])
+		return Iface{}
+	})
+	reg("(*os.File).Chmod", func(p *Path, fn *ssa.Function, a []Value) Value {
+		ptr := a[0].(*Value)
+		if ptr == nil {
+			p.goPanicStr("nil *os.File")
+		}
+		f := (*ptr).(*Native).Data.(*fileState)
+		f.mode = uint64(p.concInt(a[1].(*Term)))
+		return Iface{}
+	})
+	reg("os.IsExist", func(p *Path, fn *ssa.Function, a []Value) Value {
+		return equals(a[0], p.eexist())
+	})
 	reg("os.Chmod", func(p *Path, fn *ssa.Function, a []Value) Value {
 		f := p.fileAt(strArg(p, a[0]))
 		f.mode = uint64(p.concInt(a[1].(*Term)))
@@ -301,6 +324,15 @@ func init() {
 }
 
 // ---------- more of the os model: existence, stat, non-truncating opens, toml.DecodeFile ----------
+
+func (p *Path) eexist() Value {
+	if v, ok := p.natives["eexist"]; ok {
+		return v.(Value)
+	}
+	e := p.newError(StrC("file exists"), nil)
+	p.natives["eexist"] = e
+	return e
+}
 
 func (p *Path) enoent() Value {
 	if v, ok := p.natives["enoent"]; ok {
@@ -399,6 +431,9 @@ func init() {
 		path := strArg(p, a[0])
 		flags := p.concInt(a[1].(*Term))
 		f := p.fileAt(path)
+		if f.exists && flags&0x40 != 0 && flags&0x80 != 0 { // O_CREATE|O_EXCL on an existing file
+			return Tuple{(*Value)(nil), p.eexist()}
+		}
 		if !f.exists {
 			if flags&0x40 == 0 {
 				return Tuple{(*Value)(nil), p.enoent()}
